@@ -780,7 +780,9 @@ inductive Parser where
   | keyvaluepairs | argskwargs | dict | list | string | keys | json
   deriving Repr, DecidableEq, Inhabited
 
-def typeErrorJson : Exc := ⟨"TypeError", "json input should describe an object at the top level"⟩
+/-- the TypeError of `pypyr.parser.json` for a top-level array / literal, with the message of the code
+    (the translated parser, Props/Translated_C18, must produce exactly this). -/
+def typeErrorJson : Exc := ⟨"TypeError", "json input should describe an object at the top level. You should have something like \n{\n\"key1\":\"value1\",\n\"key2\":\"value2\"\n}\nat the json top-level, not an [array] or literal."⟩
 
 /-- The loop of `pypyr.parser.argskwargs.get_parsed_context`. -/
 def argsKwargsLoop : List String → List (Val × Val) → List String → List (Val × Val) × List String
